@@ -13,6 +13,10 @@ Section OpInd.
   Hypothesis HC : forall fs, P (OCSSItems fs).
   Hypothesis HE : forall fs ss, P (OElem fs ss).
   Hypothesis HO : forall h body, Forall P body -> P (OOnce h body).
+  Hypothesis HOC : forall h body, Forall P body -> P (OOnceC h body).
+  Hypothesis HOS : forall h, P (OOnceSelf h).
+  Hypothesis HK : forall slot pre blk block post, Forall P pre -> Forall P block -> Forall P post ->
+                                                  P (OCall slot pre blk block post).
   Hypothesis HN : forall n, P (ONonce n).
   Hypothesis HM : forall l, P (OMiddleware l).
   Fixpoint op_ind2 (o : op) : P o :=
@@ -30,6 +34,30 @@ Section OpInd.
                       | [] => Forall_nil P
                       | x :: t => Forall_cons x (op_ind2 x) (go t)
                       end) body)
+    | OOnceC h body =>
+        HOC h body ((fix go (l : list op) : Forall P l :=
+                      match l with
+                      | [] => Forall_nil P
+                      | x :: t => Forall_cons x (op_ind2 x) (go t)
+                      end) body)
+    | OOnceSelf h => HOS h
+    | OCall slot pre blk block post =>
+        HK slot pre blk block post
+           ((fix go (l : list op) : Forall P l :=
+               match l with
+               | [] => Forall_nil P
+               | x :: t => Forall_cons x (op_ind2 x) (go t)
+               end) pre)
+           ((fix go (l : list op) : Forall P l :=
+               match l with
+               | [] => Forall_nil P
+               | x :: t => Forall_cons x (op_ind2 x) (go t)
+               end) block)
+           ((fix go (l : list op) : Forall P l :=
+               match l with
+               | [] => Forall_nil P
+               | x :: t => Forall_cons x (op_ind2 x) (go t)
+               end) post)
     end.
 End OpInd.
 
@@ -359,11 +387,60 @@ Proof. induction sl as [|s t IH]; cbn; [reflexivity|]. f_equal. exact IH. Qed.
 Lemma wants_call_attrs sl : wants (map KCallAttr sl) = map WCallAttr sl.
 Proof. induction sl as [|s t IH]; cbn; [reflexivity|]. f_equal. exact IH. Qed.
 
+Lemma seqf_step : seqf step = run.
+Proof. reflexivity. Qed.
+Lemma seqf_wanted : seqf wanted1 = wanted.
+Proof. reflexivity. Qed.
+
 Lemma step_once r h body :
   step r (OOnce h body) =
-  if has r (Handle h) then (r, [KOnceSkip h])
-  else let '(r', c) := run (add r (Handle h)) body in (r', KOnceBegin h :: c ++ [KOnceEnd h]).
+  if has r (Handle h) then (set_kids (set_kids r (Some body)) None, [KOnceSkip h])
+  else let '(r', c) := run (set_kids (add (set_kids r (Some body)) (Handle h)) None) body in
+       (set_kids (set_kids r' (Some body)) None, KOnceBegin h :: c ++ [KOnceEnd h]).
 Proof. reflexivity. Qed.
+Lemma step_oncec r h body :
+  step r (OOnceC h body) =
+  if has r (Handle h) then (r, [KOnceSkip h])
+  else let '(r', c) := run (set_kids (add r (Handle h)) None) body in (r', KOnceBegin h :: c ++ [KOnceEnd h]).
+Proof. reflexivity. Qed.
+Lemma step_call r slot pre blk block post :
+  step r (OCall slot pre blk block post) =
+  let r0 := if blk then set_kids r (Some block) else r in
+  let '(r1, c1) := run (set_kids r0 None) pre in
+  let '(r2, c2) := if slot then (if blk then run r1 block
+                                 else (r1, match kids r0 with None => [] | Some b => [KLeak b] end))
+                   else (r1, []) in
+  let '(r3, c3) := run r2 post in
+  (if blk then set_kids r3 None else r3, c1 ++ c2 ++ c3).
+Proof. reflexivity. Qed.
+
+(* the children slot is no part of what has been rendered *)
+Definition same_seen (a b : reg) : Prop := forall i, has a i = has b i.
+Lemma same_seen_kids r k : same_seen (set_kids r k) r.
+Proof. intros [n|c|h]; reflexivity. Qed.
+Lemma same_seen_refl r : same_seen r r.
+Proof. intros i; reflexivity. Qed.
+Lemma same_seen_sym a b : same_seen a b -> same_seen b a.
+Proof. intros H i. symmetry. apply H. Qed.
+Lemma same_seen_trans a b c : same_seen a b -> same_seen b c -> same_seen a c.
+Proof. intros H1 H2 i. rewrite H1. apply H2. Qed.
+Lemma same_seen_kids2 r a b : same_seen (set_kids (set_kids r a) b) r.
+Proof. intros [n|c|h]; reflexivity. Qed.
+Lemma same_seen_add a b i : same_seen a b -> same_seen (add a i) (add b i).
+Proof. intros H j. rewrite !has_add, H. reflexivity. Qed.
+Lemma ok_ext r r' a a' e : same_seen a r -> same_seen a' r' -> ok r r' e -> ok a a' e.
+Proof.
+  intros Ha Ha' [A [B [C [D E]]]]. unfold ok, uses_ok, Seen in *. split; [|split; [|split; [|split]]].
+  - intros i. rewrite Ha, Ha'. apply A.
+  - exact B.
+  - intros i X. rewrite Ha. apply C. exact X.
+  - intros pre i post X. rewrite Ha. apply (D _ _ _ X).
+  - exact E.
+Qed.
+Lemma log_leak (k : option (list op)) : log (match k with None => [] | Some b => [KLeak b] end) = [].
+Proof. destruct k; reflexivity. Qed.
+Lemma wants_leak (k : option (list op)) : wants (match k with None => [] | Some b => [KLeak b] end) = [].
+Proof. destruct k; reflexivity. Qed.
 
 Lemma elem_ok r fs sl r' c : elem r fs sl = (r', c) -> ok r r' (log c).
 Proof.
@@ -395,9 +472,20 @@ Proof.
     inversion H; subst. rewrite log_app. apply (ok_seq r r1 r'); [apply F1; exact S1|apply IH; assumption].
 Qed.
 
+Lemma ok_once_body r h r0 r1 c1 :
+  same_seen r0 (add r (Handle h)) -> ~ Seen r (Handle h) -> ok r0 r1 (log c1) ->
+  ok r r1 (log (KOnceBegin h :: c1 ++ [KOnceEnd h])).
+Proof.
+  intros S0 N Hb. rewrite log_cons, log_app. cbn [log flat_map log1 app].
+  change (Def (Handle h) :: log c1 ++ [Use (Handle h)]) with ([Def (Handle h)] ++ log c1 ++ [Use (Handle h)]).
+  apply (ok_seq r (add r (Handle h)) r1); [apply ok_def1; exact N|].
+  apply (ok_seq _ r1 r1); [apply (ok_ext r0 r1); [apply same_seen_sym; exact S0|apply same_seen_refl|exact Hb]|].
+  apply (ok_uses r1 [Handle h]). intros i [<-|[]]. apply Hb. left. unfold Seen. rewrite S0, has_add, id_eqb_refl. reflexivity.
+Qed.
+
 Lemma step_ok o : step_ok_at o.
 Proof.
-  induction o as [t|s|l|fs|fs sl|h body IH|n|l] using op_ind2; intros r r' c H.
+  induction o as [t|s|l|fs|fs sl|h body IH|h body IH|h|slot pre blk block post IHpre IHblock IHpost|n|l] using op_ind2; intros r r' c H.
   - cbn in H. inversion H; subst. apply ok_nil.
   - cbn [step] in H. destruct (emit_new sid r [s]) as [r1 n] eqn:E. inversion H; subst. clear H.
     destruct (emit_new_spec _ _ _ _ _ E) as [_ [_ [_ [D _]]]].
@@ -410,16 +498,55 @@ Proof.
   - cbn [step] in H. destruct (emit_new clid r (rules_l fs)) as [r1 n] eqn:E. inversion H; subst.
     cbn [log flat_map log1]. rewrite app_nil_r. apply ok_emit with (1 := E).
   - cbn [step] in H. apply elem_ok with (1 := H).
-  - rewrite step_once in H. destruct (has r (Handle h)) eqn:Hh.
-    + inversion H; subst. cbn. apply (ok_uses r' [Handle h]). intros i [<-|[]]. exact Hh.
-    + destruct (run (add r (Handle h)) body) as [r1 c1] eqn:R. inversion H; subst. clear H.
-      rewrite log_cons, log_app. cbn [log flat_map log1 app].
-      change (Def (Handle h) :: log c1 ++ [Use (Handle h)]) with ([Def (Handle h)] ++ log c1 ++ [Use (Handle h)]).
+  - (* a handle given a block *)
+    rewrite step_once in H. destruct (has r (Handle h)) eqn:Hh.
+    + inversion H; subst. cbn [log flat_map log1 app].
+      apply (ok_ext r r); [apply same_seen_refl|apply same_seen_kids2|].
+      apply (ok_uses r [Handle h]). intros i [<-|[]]. exact Hh.
+    + destruct (run (set_kids (add (set_kids r (Some body)) (Handle h)) None) body) as [r1 c1] eqn:R. inversion H; subst. clear H.
       assert (N : ~ Seen r (Handle h)) by (unfold Seen; congruence).
       pose proof (run_ok_F body IH _ _ _ R) as Hb.
-      apply (ok_seq r (add r (Handle h)) r'); [apply ok_def1; exact N|].
-      apply (ok_seq _ r' r'); [exact Hb|].
-      apply (ok_uses r' [Handle h]). intros i [<-|[]]. apply Hb. left. apply seen_add. left; reflexivity.
+      apply (ok_ext r r1); [apply same_seen_refl|apply same_seen_kids2|].
+      refine (ok_once_body r h _ r1 c1 _ N Hb).
+      eapply same_seen_trans; [apply same_seen_kids|]. apply same_seen_add, same_seen_kids.
+  - (* a handle built with a component *)
+    rewrite step_oncec in H. destruct (has r (Handle h)) eqn:Hh.
+    + inversion H; subst. cbn. apply (ok_uses r' [Handle h]). intros i [<-|[]]. exact Hh.
+    + destruct (run (set_kids (add r (Handle h)) None) body) as [r1 c1] eqn:R. inversion H; subst. clear H.
+      assert (N : ~ Seen r (Handle h)) by (unfold Seen; congruence).
+      pose proof (run_ok_F body IH _ _ _ R) as Hb.
+      refine (ok_once_body r h _ r' c1 _ N Hb). apply same_seen_kids.
+  - (* a handle with neither component nor block *)
+    cbn [step] in H. destruct (has r (Handle h)) eqn:Hh.
+    + inversion H; subst. cbn. apply (ok_uses r' [Handle h]). intros i [<-|[]]. exact Hh.
+    + assert (N : ~ Seen r (Handle h)) by (unfold Seen; congruence).
+      assert (L : log c = [Def (Handle h)] ++ [Use (Handle h)]) by (inversion H; subst; destruct (kids r); reflexivity).
+      assert (R' : r' = add r (Handle h)) by (inversion H; reflexivity). rewrite L, R'.
+      apply (ok_seq r (add r (Handle h)) _); [apply ok_def1; exact N|].
+      apply (ok_uses _ [Handle h]). intros i [<-|[]]. apply seen_add. left; reflexivity.
+  - (* a component called with or without a block *)
+    rewrite step_call in H. cbv zeta in H.
+    set (r0 := if blk then set_kids r (Some block) else r) in *.
+    assert (S0 : same_seen (set_kids r0 None) r).
+    { eapply same_seen_trans; [apply same_seen_kids|]. unfold r0. destruct blk; [apply same_seen_kids|apply same_seen_refl]. }
+    destruct (run (set_kids r0 None) pre) as [r1 c1] eqn:R1.
+    pose proof (run_ok_F pre IHpre _ _ _ R1) as H1.
+    assert (H2 : exists r2 c2 r3 c3, ok r1 r2 (log c2) /\ ok r2 r3 (log c3) /\ same_seen r' r3 /\ c = c1 ++ c2 ++ c3).
+    { destruct slot; [destruct blk|].
+      - destruct (run r1 block) as [r2 c2] eqn:R2. destruct (run r2 post) as [r3 c3] eqn:R3. inversion H; subst.
+        exists r2, c2, r3, c3. split; [apply (run_ok_F block IHblock _ _ _ R2)|]. split; [apply (run_ok_F post IHpost _ _ _ R3)|].
+        split; [apply same_seen_kids|reflexivity].
+      - destruct (run r1 post) as [r3 c3] eqn:R3. inversion H; subst.
+        exists r1, (match kids r0 with None => [] | Some b => [KLeak b] end), r', c3.
+        split; [rewrite log_leak; apply ok_nil|]. split; [apply (run_ok_F post IHpost _ _ _ R3)|].
+        split; [apply same_seen_refl|reflexivity].
+      - destruct (run r1 post) as [r3 c3] eqn:R3. inversion H; subst.
+        exists r1, [], r3, c3. split; [apply ok_nil|]. split; [apply (run_ok_F post IHpost _ _ _ R3)|].
+        split; [destruct blk; [apply same_seen_kids|apply same_seen_refl]|reflexivity]. }
+    destruct H2 as [r2 [c2 [r3 [c3 [K2 [K3 [S3 ->]]]]]]]. rewrite !log_app.
+    apply (ok_ext r r3); [apply same_seen_refl|exact S3|].
+    apply (ok_seq r r1 r3); [apply (ok_ext _ r1 _ _ _ (same_seen_sym _ _ S0) (same_seen_refl _) H1)|].
+    apply (ok_seq r1 r2 r3); assumption.
   - cbn in H. inversion H; subst. cbn.
     (* the nonce is not part of what has been rendered *)
     unfold ok. change (defs []) with (@nil id). change (regs []) with (@nil id).
@@ -506,6 +633,16 @@ Proof. induction ks as [|k t IH]; intros r; cbn; [reflexivity|]. rewrite IH. ref
 Lemma wanted1_once hs0 h body :
   wanted1 hs0 (OOnce h body) = if existsb (N.eqb h) hs0 then (hs0, []) else wanted (h :: hs0) body.
 Proof. reflexivity. Qed.
+Lemma wanted1_oncec hs0 h body :
+  wanted1 hs0 (OOnceC h body) = if existsb (N.eqb h) hs0 then (hs0, []) else wanted (h :: hs0) body.
+Proof. reflexivity. Qed.
+Lemma wanted1_call hs0 slot pre blk block post :
+  wanted1 hs0 (OCall slot pre blk block post) =
+  let '(h1, w1) := wanted hs0 pre in
+  let '(h2, w2) := if slot && blk then wanted h1 block else (h1, []) in
+  let '(h3, w3) := wanted h2 post in
+  (h3, w1 ++ w2 ++ w3).
+Proof. reflexivity. Qed.
 
 Definition step_served_at (o : op) : Prop :=
   forall r r' c, step r o = (r', c) -> (hs r', wants c) = wanted1 (hs r) o.
@@ -519,9 +656,12 @@ Proof.
     inversion H; subst. cbn [wanted]. rewrite <- (F1 _ _ _ S1). rewrite <- (IH F2 _ _ _ R). rewrite wants_app. reflexivity.
 Qed.
 
+Lemma wants_once h c1 : wants (KOnceBegin h :: c1 ++ [KOnceEnd h]) = wants c1.
+Proof. rewrite wants_cons, wants_app. cbn [wants flat_map want1 app]. rewrite app_nil_r. reflexivity. Qed.
+
 Lemma step_served o : step_served_at o.
 Proof.
-  induction o as [t|s|l|fs|fs sl|h body IH|n|l] using op_ind2; intros r r' c H.
+  induction o as [t|s|l|fs|fs sl|h body IH|h body IH|h|slot pre blk block post IHpre IHblock IHpost|n|l] using op_ind2; intros r r' c H.
   - cbn in H. inversion H; subst. reflexivity.
   - cbn [step] in H. destruct (emit_new sid r [s]) as [r1 n] eqn:E. inversion H; subst.
     rewrite (emit_new_hs sid sid_nh _ _ _ _ E). cbn [wanted1]. destruct (scall s); reflexivity.
@@ -538,9 +678,32 @@ Proof.
   - rewrite step_once in H. rewrite wanted1_once. change (has r (Handle h)) with (existsb (N.eqb h) (hs r)) in H.
     destruct (existsb (N.eqb h) (hs r)) eqn:Hh.
     + inversion H; subst. reflexivity.
-    + destruct (run (add r (Handle h)) body) as [r1 c1] eqn:R. inversion H; subst.
-      pose proof (run_served_F body IH _ _ _ R) as X. cbn [add hs] in X. rewrite <- X.
-      rewrite wants_cons, wants_app. cbn [wants flat_map want1 app]. rewrite app_nil_r. reflexivity.
+    + destruct (run (set_kids (add (set_kids r (Some body)) (Handle h)) None) body) as [r1 c1] eqn:R. inversion H; subst.
+      pose proof (run_served_F body IH _ _ _ R) as X. cbn [add hs set_kids] in X. rewrite <- X.
+      rewrite wants_once. reflexivity.
+  - rewrite step_oncec in H. rewrite wanted1_oncec. change (has r (Handle h)) with (existsb (N.eqb h) (hs r)) in H.
+    destruct (existsb (N.eqb h) (hs r)) eqn:Hh.
+    + inversion H; subst. reflexivity.
+    + destruct (run (set_kids (add r (Handle h)) None) body) as [r1 c1] eqn:R. inversion H; subst.
+      pose proof (run_served_F body IH _ _ _ R) as X. cbn [add hs set_kids] in X. rewrite <- X.
+      rewrite wants_once. reflexivity.
+  - cbn [step wanted1] in H |- *. change (has r (Handle h)) with (existsb (N.eqb h) (hs r)) in H.
+    destruct (existsb (N.eqb h) (hs r)) eqn:Hh.
+    + inversion H; subst. reflexivity.
+    + inversion H; subst. destruct (kids r); reflexivity.
+  - rewrite step_call in H. cbv zeta in H. rewrite wanted1_call.
+    set (r0 := if blk then set_kids r (Some block) else r) in *.
+    assert (E0 : hs (set_kids r0 None) = hs r) by (unfold r0; destruct blk; reflexivity).
+    destruct (run (set_kids r0 None) pre) as [r1 c1] eqn:R1.
+    pose proof (run_served_F pre IHpre _ _ _ R1) as X1. rewrite E0 in X1. rewrite <- X1.
+    destruct slot; [destruct blk|]; cbn [andb].
+    + destruct (run r1 block) as [r2 c2] eqn:R2. destruct (run r2 post) as [r3 c3] eqn:R3. inversion H; subst.
+      rewrite <- (run_served_F block IHblock _ _ _ R2). rewrite <- (run_served_F post IHpost _ _ _ R3).
+      rewrite !wants_app. reflexivity.
+    + destruct (run r1 post) as [r3 c3] eqn:R3. inversion H; subst.
+      rewrite <- (run_served_F post IHpost _ _ _ R3). rewrite !wants_app, wants_leak. reflexivity.
+    + destruct (run r1 post) as [r3 c3] eqn:R3. inversion H; subst.
+      rewrite <- (run_served_F post IHpost _ _ _ R3). rewrite !wants_app. destruct blk; reflexivity.
   - cbn in H. inversion H; subst. reflexivity.
   - cbn in H. inversion H; subst. unfold add_classes. rewrite fold_add_hs. reflexivity.
 Qed.
@@ -554,6 +717,105 @@ Qed.
 
 Lemma init_hs cf : hs (init_reg cf) = [].
 Proof. unfold init_reg, add_classes. rewrite fold_add_hs. reflexivity. Qed.
+
+(* ---------- the children slot: what a caller leaves in the context never reaches a component called without a block ---------- *)
+Definition leak_free (cs : list chunk) : Prop := forall b, ~ In (KLeak b) cs.
+Lemma leak_free_nil : leak_free [].
+Proof. intros b []. Qed.
+Lemma leak_free_app a b : leak_free a -> leak_free b -> leak_free (a ++ b).
+Proof. intros Ha Hb x X. apply in_app_or in X as [X|X]; [apply (Ha x X)|apply (Hb x X)]. Qed.
+Lemma leak_free_cons c t : (forall b, c <> KLeak b) -> leak_free t -> leak_free (c :: t).
+Proof. intros Hc Ht b [X|X]; [apply (Hc b X)|apply (Ht b X)]. Qed.
+Lemma leak_free_map {A} (f : A -> chunk) l : (forall a b, f a <> KLeak b) -> leak_free (map f l).
+Proof. intros Hf b X. apply in_map_iff in X as [a [X _]]. apply (Hf a b X). Qed.
+
+Lemma kids_set r k : kids (set_kids r k) = k.
+Proof. reflexivity. Qed.
+Lemma add_kids r i : kids (add r i) = kids r.
+Proof. destruct i; reflexivity. Qed.
+Lemma emit_new_kids {A} (idf : A -> id) (l : list A) : forall r r' n, emit_new idf r l = (r', n) -> kids r' = kids r.
+Proof.
+  induction l as [|a t IH]; intros r r' n H; cbn [emit_new] in H.
+  - inversion H; reflexivity.
+  - destruct (has r (idf a)); [apply (IH _ _ _ H)|].
+    destruct (emit_new idf (add r (idf a)) t) as [r1 n1] eqn:R. inversion H; subst.
+    rewrite (IH _ _ _ R). apply add_kids.
+Qed.
+Lemma fold_add_kids ks : forall r, kids (fold_left (fun r k => add r (clid k)) ks r) = kids r.
+Proof. induction ks as [|k t IH]; intros r; cbn [fold_left]; [reflexivity|]. rewrite IH. apply add_kids. Qed.
+
+(* between any two uses the slot is empty, and no use finds anything in it that its caller did not put there *)
+Definition step_tidy_at (o : op) : Prop :=
+  forall r r' c, kids r = None -> step r o = (r', c) -> kids r' = None /\ leak_free c.
+
+Lemma run_tidy_F l : Forall step_tidy_at l ->
+  forall r r' c, kids r = None -> run r l = (r', c) -> kids r' = None /\ leak_free c.
+Proof.
+  induction l as [|o t IH]; intros F r r' c K H; cbn [run] in H.
+  - inversion H; subst. split; [exact K|apply leak_free_nil].
+  - apply Forall_cons_iff in F as [F1 F2]. destruct (step r o) as [r1 c1] eqn:S1. destruct (run r1 t) as [r2 c2] eqn:R.
+    inversion H; subst. destruct (F1 _ _ _ K S1) as [K1 L1]. destruct (IH F2 _ _ _ K1 R) as [K2 L2].
+    split; [exact K2|apply leak_free_app; assumption].
+Qed.
+
+Lemma step_tidy o : step_tidy_at o.
+Proof.
+  induction o as [t|s|l|fs|fs sl|h body IH|h body IH|h|slot pre blk block post IHpre IHblock IHpost|n|l] using op_ind2; intros r r' c K H.
+  - cbn in H. inversion H; subst. split; [exact K|]. apply leak_free_cons; [discriminate|apply leak_free_nil].
+  - cbn [step] in H. destruct (emit_new sid r [s]) as [r1 n] eqn:E. inversion H; subst.
+    split; [rewrite (emit_new_kids _ _ _ _ _ E); exact K|].
+    apply leak_free_cons; [discriminate|]. destruct (scall s); [apply leak_free_nil|].
+    apply leak_free_cons; [discriminate|apply leak_free_nil].
+  - cbn [step] in H. destruct (emit_new sid r l) as [r1 n] eqn:E. inversion H; subst.
+    split; [rewrite (emit_new_kids _ _ _ _ _ E); exact K|]. apply leak_free_cons; [discriminate|apply leak_free_nil].
+  - cbn [step] in H. destruct (emit_new clid r (rules_l fs)) as [r1 n] eqn:E. inversion H; subst.
+    split; [rewrite (emit_new_kids _ _ _ _ _ E); exact K|]. apply leak_free_cons; [discriminate|apply leak_free_nil].
+  - cbn [step] in H. unfold elem in H. destruct (emit_new clid r (rules_l fs)) as [r1 nc] eqn:E1.
+    destruct (emit_new sid r1 sl) as [r2 nsc] eqn:E2. inversion H; subst.
+    split; [rewrite (emit_new_kids _ _ _ _ _ E2), (emit_new_kids _ _ _ _ _ E1); exact K|].
+    apply (leak_free_app [_; _; _]); [repeat (apply leak_free_cons; [discriminate|]); apply leak_free_nil|].
+    apply leak_free_app; [destruct fs; [apply leak_free_nil|apply leak_free_cons; [discriminate|apply leak_free_nil]]|].
+    apply leak_free_app; [apply leak_free_map; discriminate|apply leak_free_cons; [discriminate|apply leak_free_nil]].
+  - rewrite step_once in H. destruct (has r (Handle h)).
+    + inversion H; subst. split; [reflexivity|]. apply leak_free_cons; [discriminate|apply leak_free_nil].
+    + destruct (run (set_kids (add (set_kids r (Some body)) (Handle h)) None) body) as [r1 c1] eqn:R. inversion H; subst.
+      split; [reflexivity|]. destruct (run_tidy_F body IH _ _ _ (kids_set _ None) R) as [_ L].
+      apply leak_free_cons; [discriminate|]. apply leak_free_app; [exact L|apply leak_free_cons; [discriminate|apply leak_free_nil]].
+  - rewrite step_oncec in H. destruct (has r (Handle h)).
+    + inversion H; subst. split; [exact K|]. apply leak_free_cons; [discriminate|apply leak_free_nil].
+    + destruct (run (set_kids (add r (Handle h)) None) body) as [r1 c1] eqn:R. inversion H; subst.
+      destruct (run_tidy_F body IH _ _ _ (kids_set _ None) R) as [K1 L]. split; [exact K1|].
+      apply leak_free_cons; [discriminate|]. apply leak_free_app; [exact L|apply leak_free_cons; [discriminate|apply leak_free_nil]].
+  - cbn [step] in H. destruct (has r (Handle h)).
+    + inversion H; subst. split; [exact K|]. apply leak_free_cons; [discriminate|apply leak_free_nil].
+    + rewrite K in H. inversion H; subst. split; [try rewrite add_kids; exact K|].
+      apply leak_free_cons; [discriminate|apply leak_free_nil].
+  - rewrite step_call in H. cbv zeta in H.
+    set (r0 := if blk then set_kids r (Some block) else r) in *.
+    destruct (run (set_kids r0 None) pre) as [r1 c1] eqn:R1.
+    destruct (run_tidy_F pre IHpre _ _ _ (kids_set _ None) R1) as [K1 L1].
+    destruct slot; [destruct blk|].
+    + destruct (run r1 block) as [r2 c2] eqn:R2. destruct (run r2 post) as [r3 c3] eqn:R3. inversion H; subst.
+      destruct (run_tidy_F block IHblock _ _ _ K1 R2) as [K2 L2]. destruct (run_tidy_F post IHpost _ _ _ K2 R3) as [K3 L3].
+      split; [reflexivity|]. apply leak_free_app; [exact L1|apply leak_free_app; assumption].
+    + destruct (run r1 post) as [r3 c3] eqn:R3. inversion H; subst.
+      destruct (run_tidy_F post IHpost _ _ _ K1 R3) as [K3 L3]. split; [exact K3|].
+      apply leak_free_app; [exact L1|]. apply leak_free_app; [|exact L3].
+      (* the caller gave no block: the slot holds what the context held, which is nothing *)
+      unfold r0. rewrite K. apply leak_free_nil.
+    + destruct (run r1 post) as [r3 c3] eqn:R3. inversion H; subst.
+      destruct (run_tidy_F post IHpost _ _ _ K1 R3) as [K3 L3].
+      split; [destruct blk; [reflexivity|exact K3]|]. apply leak_free_app; [exact L1|exact L3].
+  - cbn in H. inversion H; subst. split; [exact K|apply leak_free_nil].
+  - cbn in H. inversion H; subst. split; [unfold add_classes; rewrite fold_add_kids; exact K|].
+    apply leak_free_cons; [discriminate|apply leak_free_nil].
+Qed.
+
+Theorem children_never_leak l r r' c : kids r = None -> run r l = (r', c) -> kids r' = None /\ leak_free c.
+Proof. apply run_tidy_F. apply Forall_forall. intros o _. apply step_tidy. Qed.
+
+Lemma init_kids cf : kids (init_reg cf) = None.
+Proof. unfold init_reg, add_classes. rewrite fold_add_kids. reflexivity. Qed.
 
 (* ---------- separate contexts ---------- *)
 Lemma proj_app {A} c (a b : list (nat * A)) : proj c (a ++ b) = proj c a ++ proj c b.
@@ -612,6 +874,13 @@ Section Multi.
     never_inlined_once_registered (log (proj c out)).
   Proof.
     intros H. apply (registered_midway_never_inlined (init_reg (cfgs c)) (proj c h) (st' c)). apply (contexts_independent h st0 st' out c H).
+  Qed.
+
+  Theorem multi_children_never_leak h st' out c : run_multi st0 h = (st', out) ->
+    kids (st' c) = None /\ forall b, ~ In (KLeak b) (proj c out).
+  Proof.
+    intros H. apply (children_never_leak (proj c h) (init_reg (cfgs c))); [apply init_kids|].
+    apply (contexts_independent h st0 st' out c H).
   Qed.
 
   Theorem multi_independent h st' out c : run_multi st0 h = (st', out) ->
